@@ -9,6 +9,10 @@
 -/
 import VotelibProofs.Props.C09
 import VotelibProofs.Lemmas.HAScale
+import VotelibProofs.Lemmas.ScaleThreshold
+import VotelibProofs.Lemmas.ScaleQuota
+import VotelibProofs.Lemmas.ScaleConvert
+import VotelibModel.ScaleFamilies
 import VotelibModel.Gen.Quota
 import Mathlib.Tactic.Ring
 import Mathlib.Tactic.FieldSimp
@@ -73,6 +77,66 @@ theorem quotaSelector_scale (quota : Rat → Nat → Rat) (hq : Homogeneous quot
   unfold scaleVotes at this
   rw [this]
 
+/-- **RelativeThreshold** (threshold.py L77-92): shares are ratios of two vote quantities.  Includes the refusal
+    (`ZeroDivisionError` on a zero total) — it is the same refusal on both sides. -/
+theorem relativeThreshold_scale (t : Rat) (eq : Bool) (k : Rat) (hk : 0 < k) (votes : Votes) :
+    relativeThreshold t eq (scaleVotes k votes) = relativeThreshold t eq votes :=
+  VL.Scale.relativeThreshold_scale t eq k hk votes
+
+/-- **QuotaDistributor with an exact (homogeneous) quota** — every `accept_equal`, every over-award policy (the
+    'subtract' remainders scale by `k`), any `prev_gains` and `max_seats`. -/
+theorem quotaDistributor_scale (cfg : QD.Cfg) (hq : Homogeneous cfg.quota) (k : Rat) (hk : 0 < k) (votes : Votes)
+    (n : Nat) (prev maxS : QD.IMap) :
+    QD.quotaDistribute cfg (scaleVotes k votes) n prev maxS = QD.quotaDistribute cfg votes n prev maxS :=
+  VL.Scale.quotaDistribute_scale cfg hq k hk votes n prev maxS
+
+/-- **LargestRemainder with an exact (homogeneous) quota** (hare, hagenbach_bischoff, imperiali): the whole quotas
+    `int(kv/(kq))` and the remainders `kv/(kq) - gained` are literally unchanged. -/
+theorem largestRemainder_scale (cfg : QD.Cfg) (hq : Homogeneous cfg.quota) (k : Rat) (hk : 0 < k) (votes : Votes)
+    (n : Nat) (prev maxS : QD.IMap) :
+    QD.largestRemainder cfg (scaleVotes k votes) n prev maxS = QD.largestRemainder cfg votes n prev maxS :=
+  VL.Scale.largestRemainder_scale cfg hq k hk votes n prev maxS
+
+/-! ### converters are linear; positional rules and approval voting = converter ∘ plurality -/
+
+/-- scaling of the weights of a profile of any ballot type (`VL.Scale.scaleD`) -/
+abbrev scaleProfile {κ : Type} (k : Rat) (p : Convert.Dict κ) : Convert.Dict κ := VL.Scale.scaleD k p
+
+/-- **RankedToPositionalVotes is linear** (every scorer; a refusal is the same refusal): same keys in the same order,
+    every value multiplied by `k`. -/
+theorem rankedToPositional_linear (sc : Convert.Scorer) (k : Rat) (hk : 0 < k) (p : Convert.RProfile) :
+    Convert.rankedToPositional sc (scaleProfile k p) = (Convert.rankedToPositional sc p).map (scaleVotes k) :=
+  VL.Scale.rankedToPositional_scale sc k hk p
+
+/-- **ApprovalToSimpleVotes is linear** (split and unsplit) — for every rational `k`, even non-positive. -/
+theorem approvalToSimple_linear (split : Bool) (k : Rat) (p : Convert.AProfile) :
+    Convert.approvalToSimple split (scaleProfile k p) = (Convert.approvalToSimple split p).map (scaleVotes k) :=
+  VL.Scale.approvalToSimple_scale split k p
+
+/-- **RankedToCondorcetVotes is linear** (C13 model; both settings of `unranked_at_bottom`). -/
+theorem rankedToCondorcet_linear (atBottom : Bool) (k : Rat) (p : Convert.RProfile) :
+    Convert.rankedToCondorcet atBottom (scaleProfile k p) = scaleProfile k (Convert.rankedToCondorcet atBottom p) :=
+  VL.Scale.rankedToCondorcet_scale atBottom k p
+
+/-- **Positional rules** (`PreConverted(RankedToPositionalVotes(scorer), Plurality())`: Borda, Dowdall, geometric,
+    modified Borda, fixed top, any score sequence) are scale invariant. -/
+theorem positionalRule_scale (sc : Convert.Scorer) (k : Rat) (hk : 0 < k) (p : Convert.RProfile) (n : Nat) :
+    C11F.positionalRule sc (scaleProfile k p) n = C11F.positionalRule sc p n := by
+  unfold C11F.positionalRule
+  rw [rankedToPositional_linear sc k hk]
+  cases Convert.rankedToPositional sc p with
+  | error e => rfl
+  | ok v => exact congrArg Except.ok (plurality_scale k hk v n)
+
+/-- **Approval voting and satisfaction approval voting** (`PreConverted(ApprovalToSimpleVotes(split), Plurality())`). -/
+theorem approvalRule_scale (split : Bool) (k : Rat) (hk : 0 < k) (p : Convert.AProfile) (n : Nat) :
+    C11F.approvalRule split (scaleProfile k p) n = C11F.approvalRule split p n := by
+  unfold C11F.approvalRule
+  rw [approvalToSimple_linear split k]
+  cases Convert.approvalToSimple split p with
+  | error e => rfl
+  | ok v => exact congrArg Except.ok (plurality_scale k hk v n)
+
 /-- **Near ties are never ties**: totals that differ by one vote at any magnitude (`v` is any rational, so in particular
     `10^30`) are separated. -/
 theorem near_tie_separated (a b : Cand) (v : Rat) :
@@ -92,6 +156,14 @@ theorem equal_rationals_tied (a b : Cand) (x : Rat) :
   simp [getNBest, sortDesc, insertDesc, h]
 
 /-- non-vacuity -/
+example : QD.largestRemainder ⟨Gen.Quota.hare, true, .error⟩ (scaleVotes ((10:Rat)^25 + 7) [(1,47),(2,16),(3,16),(4,21)]) 10 [] []
+    = .ok [(Key.cand 1, 5), (Key.cand 2, 1), (Key.cand 3, 1), (Key.cand 4, 2), (Key.tie [2, 3], 1)] := by decide +kernel
+example : C11F.positionalRule (.borda 1) (scaleProfile ((10:Rat)^25 + 7)
+    [([.one 1, .one 2, .one 3], 2), ([.one 3, .shared [1, 2]], 1), ([.one 2], 1)]) 2 = .ok [Slot.cand 2, Slot.cand 1] := by
+  decide +kernel
+example : C11F.approvalRule true (scaleProfile ((10:Rat)^25 + 7) [([1, 2], 2), ([3], 1), ([2, 3], 1)]) 1
+    = .ok [Slot.tie [2, 3]] := by decide +kernel
+example : relativeThreshold (1/3) false (scaleVotes ((10:Rat)^25 + 7) [(1,2),(2,1),(3,3)]) = .ok [3] := by decide +kernel
 example : getNBest (scaleVotes ((10:Rat)^25 + 7) [(1,5),(2,3),(3,3)]) 2 = [Slot.cand 1, Slot.tie [2,3]] := by decide +kernel
 
 end VL.C11
